@@ -211,8 +211,42 @@ def eager(ck, ctx):
     ck.ob("eager", "vars-are-literals", cons == ["Literal"], "a file-level variable answers with a Literal part (already expanded text): %s" % cons, span=gv.loc, fn=gv.nname)
 
 
+def env_impls_total(ck, ctx):
+    """every scope answers with its binding whenever it has one, whatever the value (an empty value still shadows the outer scopes):
+    each `Env::get_var` for a map type returns Some exactly when the lookup found the key -- decided by propagation: the lookup's answer is
+    the only thing the result may depend on"""
+    from n2sa.flagint import FlagInt, OPTION
+    F = ctx.F
+    impls = sorted(n for n in F.bodies if "as eval::Env>::get_var" in n and F.bodies[n].kind in ("fn", "assoc") and ("SmallMap" in n.split(" as ")[0] or "eval::Vars" in n.split(" as ")[0]))
+    ck.floor("Env::get_var implementations of map-like scopes", len(impls), 3)
+    for n in impls:
+        b = F.body(n)
+        ck.functions.add(n)
+
+        def hook(fi, bi, t, callee, args, vals, ghost, b=b):
+            if callee.endswith(("SmallMap::get", "Vars::get", "HashMap::get")) or (callee.endswith("::get") and "smallmap" in callee):
+                return [(("en", OPTION, "None", ()), dict(ghost, found=False)), (("en", OPTION, "Some", None), dict(ghost, found=True))]
+            return None
+
+        fi = FlagInt(F, b, hook).run()
+        bad = []
+        for g, rv in fi.rets:
+            g = dict(g)
+            if "found" not in g:
+                bad.append("a return that does not depend on the lookup")
+                continue
+            is_some = rv is not None and rv[0] == "en" and rv[2] == "Some"
+            is_none = rv is not None and rv[0] == "en" and rv[2] == "None"
+            if g["found"] and not is_some:
+                bad.append("key found -> %s" % ("None" if is_none else "undetermined"))
+            if not g["found"] and not is_none:
+                bad.append("key absent -> %s" % ("Some" if is_some else "undetermined"))
+        ck.ob("continue-after", "scope-answers-iff-bound|%s" % n.split(" as ")[0].lstrip("<"), len(fi.rets) >= 2 and not bad and not fi.capped, "%s returns Some exactly when the key is bound in this scope, whatever the bound value (%d abstract returns; %s)" % (n, len(fi.rets), bad or "all consistent"), span=b.loc, fn=n)
+
+
 def continue_after(ck, ctx):
     F = ctx.F
+    env_impls_total(ck, ctx)
     b = ck.need("fn eval::EvalString::evaluate_inner", F.body("eval::EvalString::evaluate_inner"))
     R = ctx.res(b)
     cfg = ctx.cfg(b)
